@@ -32,7 +32,7 @@ SUBJECT_NAMES = ["case 01", "sub-001", 'q"uote', " lead", "trail ", "subject_nam
 
 
 def cases(tier, seed):
-    for i in range(640 if tier == "quick" else 12000):
+    for i in range(1000 if tier == "quick" else 16000):
         yield {"fam": "file", "i": i}
 
 
